@@ -646,6 +646,11 @@ fn main() {
         eprintln!("usage: wiresim check <C04|C07> [--tier quick|thorough] [--seed N] [--cases N] [--jobs N] | wiresim replay <file>");
         std::process::exit(2);
     }
+    if args[1] == "parse-scan" {
+        // developer aid (not a registered check): which panic sites can a mangled datagram reach?
+        parse_scan(args[2].parse().unwrap_or(2000));
+        return;
+    }
     if args[1] == "replay" {
         std::process::exit(replay(&args[2]));
     }
@@ -894,5 +899,49 @@ fn replay(path: &str) -> i32 {
     } else {
         println!("not reproduced: signature {} absent", rp.signature);
         0
+    }
+}
+
+fn parse_scan(cases: u64) {
+    use std::collections::BTreeMap;
+    let mut sites: BTreeMap<String, (u64, String)> = BTreeMap::new();
+    let mut tried = 0u64;
+    for c in 0..cases {
+        let mut r = Rng::new(mix(0xACE, c));
+        let mut cfg = case_cfg(&mut r, "C04");
+        cfg.max_rr = cfg.max_rr.min(3);
+        cfg.sizes.blob_max = cfg.sizes.blob_max.min(12);
+        let (spec, opt) = gen::packet(&mut r, &cfg);
+        let packet = bridge::packet(&spec, opt.as_ref());
+        for mode in [Mode::Plain, Mode::Compressed] {
+            let (_, Some(bytes)) = build_vec(&packet, mode) else { continue };
+            if bytes.len() > 400 {
+                continue;
+            }
+            let mut variants: Vec<Vec<u8>> = Vec::new();
+            for cut in 0..bytes.len() {
+                variants.push(bytes[..cut].to_vec());
+            }
+            for i in 0..bytes.len() {
+                for d in [1u8, 255, 0x80] {
+                    let mut v = bytes.clone();
+                    v[i] = v[i].wrapping_add(d);
+                    variants.push(v);
+                }
+            }
+            for v in variants {
+                tried += 1;
+                let (res, _) = simwriter::guarded_parse(&v);
+                if let Res::Panic(p) = res {
+                    let loc = p.rsplit(" @ ").next().unwrap_or("").to_string();
+                    let e = sites.entry(loc).or_insert((0, p.clone()));
+                    e.0 += 1;
+                }
+            }
+        }
+    }
+    println!("{} inputs tried, {} distinct panic sites", tried, sites.len());
+    for (loc, (n, msg)) in &sites {
+        println!("{:6}  {}   [{}]", n, loc, msg.split(" @ ").next().unwrap_or(""));
     }
 }
